@@ -177,6 +177,27 @@ func c12Pair(a, b [2]float32) (kind, msg string, werr, merr float64) {
 			}
 		}
 	}
+	// the xyY constructor with whites of unequal luminance (a media white below 1, say) must still
+	// be the XYZ constructor applied to the corresponding XYZ whites
+	{
+		Ay, By := ciexyy.Color{X: a[0], Y: a[1], YY: 0.85}, ciexyy.Color{X: b[0], Y: b[1], YY: 1.1}
+		cv, pan := c12Call(func() ciexyz.ChromaticAdaptation { return ciexyz.AdaptBetweenXYYWhitePoints(Ay, By) })
+		if pan != nil {
+			return "panic", fmt.Sprintf("AdaptBetweenXYYWhitePoints with luminances 0.85/1.1 panicked: %v", pan), 0, 0
+		}
+		ax, bx := ciexyz.ColorFromXYY(Ay), ciexyz.ColorFromXYY(By)
+		cz := ciexyz.AdaptBetweenXYZWhitePoints(ax, bx)
+		mv, mzz := libMat(matrix.Matrix3(cv)), libMat(matrix.Matrix3(cz))
+		if d := mv.MaxAbsDiff(mzz); !(d <= 1e-9*math.Max(1, mv.NormInf())) {
+			return "constructors-luminance", fmt.Sprintf("xyY constructor (%v Y=0.85 -> %v Y=1.1) and XYZ constructor on the same whites disagree by %.3g", a, b, d), 0, 0
+		}
+		got, want := xyzVec(cv.Apply(ax)), xyzVec(bx)
+		for i := 0; i < 3; i++ {
+			if !(math.Abs(got[i]-want[i]) <= 1e-6*math.Max(1, math.Abs(want[i]))) {
+				return "white-luminance", fmt.Sprintf("adaptation %v (Y=0.85) -> %v (Y=1.1) maps the source white to %v, destination white is %v", a, b, got, want), 0, 0
+			}
+		}
+	}
 	caZ := ciexyz.AdaptBetweenXYZWhitePoints(aX, bX)
 	m, mz := libMat(matrix.Matrix3(caV)), libMat(matrix.Matrix3(caZ))
 	if d := m.MaxAbsDiff(mz); !(d <= 1e-9*math.Max(1, m.NormInf())) {
